@@ -383,8 +383,14 @@ class Receiver:
                 # We're done, so now we need to check
                 # whether task has returned an error.
                 message = current_message.result()
-                current_message = asyncio.create_task(iterator.__anext__())  # type: ignore
                 fetched_tasks += 1
+                # We don't take one more message from the broker,
+                # if the limit of tasks to execute is reached. It would be lost.
+                if not (
+                    self.max_tasks_to_execute
+                    and fetched_tasks >= self.max_tasks_to_execute
+                ):
+                    current_message = asyncio.create_task(iterator.__anext__())  # type: ignore
                 await queue.put(message)
             except (asyncio.CancelledError, StopAsyncIteration):
                 break
